@@ -58,6 +58,7 @@ class Elab:
         self.gravity = float(wj.get("gravity model", {}).get("magnitude", 9.81))
         self.unsupported = None
         self.uses_random = False
+        self.has_lines = False
 
     # -- helpers -------------------------------------------------------------------------
     def tag_index(self, tag):
@@ -234,11 +235,91 @@ class Elab:
         ]
         return "plume_to_feature n g tape %s {%s}" % ("true" if self.spherical else "false", "; ".join(fields))
 
+    # -- slabs and faults (Cartesian worlds; SlabFeature.v) -------------------------------------
+    def line_models(self, d, fault):
+        """the four optional model lists of a feature / section entry / segment as `mkind -> mlist_ option`"""
+        kmin, kmax = ("min distance fault center", "max distance fault center") if fault else ("min distance slab top", "max distance slab top")
+        arms = []
+        if "temperature models" in d:
+            ts = []
+            for m in d["temperature models"]:
+                mn, mx, o = ml(m.get(kmin, 0.0)), ml(m.get(kmax, DMAX)), self.op(m)
+                k = m["model"]
+                if k == "uniform":
+                    ts.append("STUniform (%s, %s, %s, %s)" % (mn, mx, o, ml(m.get("temperature", 293.15))))
+                elif k == "linear":
+                    a, b = ("center temperature", "side temperature") if fault else ("top temperature", "bottom temperature")
+                    ts.append("STLinear (%s, %s, %s, %s, %s)" % (mn, mx, o, ml(m.get(a, 293.15)), ml(m.get(b, -1))))
+                elif k == "adiabatic":
+                    Tp, al, cp = m.get("potential mantle temperature", -1), m.get("thermal expansion coefficient", -1), m.get("specific heat", -1)
+                    ts.append("STAdiabatic (%s, %s, %s, %s, %s, %s)" % (mn, mx, o, ml(self.Tp if Tp < 0 else Tp), ml(self.alpha if al < 0 else al), ml(self.cp if cp < 0 else cp)))
+                else:
+                    self.unsupported = "slab/fault temperature model " + k
+            arms.append("KTemp -> Some (MTemp %s)" % mlist(ts))
+        if "composition models" in d:
+            cs = []
+            for m in d["composition models"]:
+                o = self.op(m)
+                comps = mlist([nlit(c) for c in m["compositions"]])
+                if m["model"] == "uniform":
+                    fr = m.get("fractions", [1.0])
+                    cs.append("SCUniform (%s, %s, %s, %s, %s)" % (ml(m.get(kmin, 0.0)), ml(m.get(kmax, DMAX)), o, comps, mlist([ml(x) for x in fr])))
+                elif m["model"] == "smooth":
+                    if fault:
+                        side = m.get("side distance fault center", DMAX)
+                        cs.append("SCSmooth (%s, %s, %s, %s, %s, %s, %s)" % (ml(m.get(kmin, 0.0)), ml(0.0), ml(side), o, comps,
+                                                                           mlist([ml(x) for x in m.get("center fractions", [1.0])]), mlist([ml(x) for x in m.get("side fractions", [0.0])])))
+                    else:
+                        mn, mx = float(m.get(kmin, 0.0)), float(m.get(kmax, 0.0))
+                        cs.append("SCSmooth (%s, %s, %s, %s, %s, %s, %s)" % (ml(mn), ml(mx), ml(abs(mx - mn)), o, comps,
+                                                                           mlist([ml(x) for x in m.get("top fractions", [1.0])]), mlist([ml(x) for x in m.get("bottom fractions", [0.0])])))
+                else:
+                    self.unsupported = "slab/fault composition model " + m["model"]
+            arms.append("KComp -> Some (MComp %s)" % mlist(cs))
+        if "grains models" in d:
+            arms.append("KGrains -> Some MGrains")
+        if "velocity models" in d:
+            vs = []
+            for m in d["velocity models"]:
+                if m["model"] != "uniform raw":
+                    self.unsupported = "slab/fault velocity model " + m["model"]
+                    continue
+                v = m.get("velocity", [0.0, 0.0, 0.0])
+                vs.append("SVUniformRaw (%s, %s, %s, ((%s, %s), %s))" % (ml(m.get(kmin, 0.0)), ml(m.get(kmax, DMAX)), self.op(m), ml(v[0]), ml(v[1]), ml(v[2])))
+            arms.append("KVel -> Some (MVel %s)" % mlist(vs))
+        return "(fun k -> match k with %s | _ -> None)" % " | ".join(arms) if arms else "(fun _ -> None)"
+
+    def line_segment(self, sg, fault):
+        a = sg["angle"]
+        th = sg["thickness"]
+        tr = sg.get("top truncation", [0.0])
+        geo = "{sg_top=%s; sg_bot=%s; sg_len=%s; sg_th0=%s; sg_th1=%s; sg_tr0=%s; sg_tr1=%s}" % (
+            ml(a[0] * (PI / 180)), ml(a[-1] * (PI / 180)), ml(sg["length"]), ml(th[0]), ml(th[-1]), ml(tr[0]), ml(tr[-1]))
+        return "{sg_geom=%s; sg_models=%s}" % (geo, self.line_models(sg, fault))
+
+    def line_feature(self, f, idx):
+        fault = f["model"] == "fault"
+        tag = f.get("tag", "") or f["model"]
+        ti = self.tag_index(tag)
+        if self.spherical:
+            self.unsupported = "slab/fault in a spherical world"
+            return None
+        self.has_lines = True
+        secs = mlist(["{se_coord=%s; se_segments=%s; se_models=%s}" % (natlit(sc["coordinate"]), mlist([self.line_segment(sg, fault) for sg in sc["segments"]]),
+                                                                       self.line_models(sc, fault)) for sc in f.get("sections", [])])
+        layout = "{ly_n=%s; ly_models=%s; ly_default=%s; ly_sections=%s}" % (
+            natlit(len(f["coordinates"])), self.line_models(f, fault), mlist([self.line_segment(sg, fault) for sg in f["segments"]]), secs)
+        return "line_to_feature n g (line_of_layout %s %s %s %s %s %s %s)" % (
+            "true" if fault else "false", mlist([mpt(c) for c in self.coords(f["coordinates"])]), mpt((float(f["dip point"][0]), float(f["dip point"][1]))),
+            ml(f.get("min depth", 0.0)), ml(f.get("max depth", DMAX)), layout, ml(float(ti)))
+
     def feature(self, f, idx):
         if f["model"] in ("continental plate", "oceanic plate", "mantle layer"):
             return self.area_feature(f, idx)
         if f["model"] == "plume":
             return self.plume_feature(f, idx)
+        if f["model"] in ("subducting plate", "fault"):
+            return self.line_feature(f, idx)
         # keep the tag table aligned even for features the model does not cover
         self.tag_index(f.get("tag", "") or f["model"])
         self.unsupported = "feature " + f["model"]
